@@ -271,6 +271,16 @@ fn ne(e: &Expr, tail: bool, s: &mut String) {
             nlist(args, s);
             s.push_str(")");
         }
+        Expr::Binary(BinOp::Div, l, r) if is_num(r, 0.0) && (is_num(l, 1.0) || is_num(l, 0.0) || matches!(&**l, Expr::Unary(UnOp::Neg, x) if is_num(x, 1.0))) => {
+            // darklua spells infinities and NaN as 1/0, -1/0, 0/0 (the public f64 conversion builds these trees)
+            if is_num(l, 1.0) {
+                s.push_str("#inf");
+            } else if is_num(l, 0.0) {
+                s.push_str("#nan");
+            } else {
+                s.push_str("-(#inf)");
+            }
+        }
         Expr::Binary(op, a, b) => {
             s.push('(');
             ne(a, false, s);
@@ -443,7 +453,8 @@ pub fn to_darklua(e: &Expr) -> Option<dn::Expression> {
         Expr::Nil => dn::Expression::nil(),
         Expr::True => dn::Expression::from(true),
         Expr::False => dn::Expression::from(false),
-        Expr::Number(v, _) => dn::Expression::from(dn::DecimalNumber::new(*v)),
+        // the public conversion (negative values become a unary minus, as everywhere in darklua)
+        Expr::Number(v, _) => dn::Expression::from(*v),
         Expr::Str(b, _) => dn::StringExpression::from_value(b.clone()).into(),
         Expr::Vararg => dn::Expression::variable_arguments(),
         Expr::Name(n) => dn::Identifier::new(n.clone()).into(),
@@ -548,7 +559,8 @@ pub fn enum_tree(i: u64) -> Option<Expr> {
         i /= 2;
         let o1 = BinOp::ALL[(i % n) as usize];
         let o2 = BinOp::ALL[(i / n) as usize];
-        let (a, b, c) = (leaf(rot), leaf(rot + 1), leaf(rot + 2));
+        // rotations cover all nine leaf kinds (identifier, numbers incl. a negative literal, string, varargs, call, field)
+        let (a, b, c) = (leaf(rot * 3 + 1), leaf(rot * 3 + 2), leaf(rot * 3 + 3));
         return Some(if shape == 0 { Expr::bin(o1, Expr::bin(o2, a, b), c) } else { Expr::bin(o1, a, Expr::bin(o2, b, c)) });
     }
     i -= b1;
@@ -798,6 +810,42 @@ impl Monitor for C02 {
                     }
                     Err((sig, detail)) => Verdict::violated(sig, detail),
                 }
+            }
+        }
+    }
+
+    fn classify(&mut self, case: &Case, signature: &str) -> String {
+        // name the tree shape (identifiers and literal values abstracted) for single-tree cases
+        let tree = match case["kind"].as_str() {
+            Some("enum") => {
+                let from = case["from"].as_u64().unwrap_or(0);
+                if case["to"].as_u64() == Some(from + 1) {
+                    enum_tree(from)
+                } else {
+                    None
+                }
+            }
+            Some("tree") => crate::reflua::parser::parse_expr(case["expr"].as_str().unwrap_or("nil"), Mode::Luau).ok(),
+            _ => None,
+        };
+        match tree {
+            Some(t) => {
+                let mut shape = norm_expr_top(&t);
+                if shape.len() > 90 {
+                    shape.truncate(90);
+                }
+                format!("{}|{}", signature, shape)
+            }
+            None => {
+                let src = case["src"].as_str().unwrap_or("");
+                if src.contains("<<") || src.contains("< <") {
+                    if let Ok(b) = parse_block(src, Mode::Luau) {
+                        if norm_block(&b).contains("<instantiation") && norm_block(&b).contains(":") {
+                            return format!("{}|method-call-type-instantiation", signature);
+                        }
+                    }
+                }
+                signature.to_string()
             }
         }
     }
